@@ -1526,6 +1526,7 @@ class TransportLayer(TransportLayerLogic):
         self.rx_relay_queue = queue.Queue()
         self.started = False
         self.main_thread = None
+        self.relay_thread = None
         self.default_read_timeout = read_timeout
         self.events = self.Events()
         self.user_rxfn = rxfn   # Used by the relay thread
